@@ -58,7 +58,8 @@ def gen_case(tape, tier):
         "start": tape.pick(["fifo", "any"], "start"),
         "storage": C.gen_storage(tape, w) if kind not in ("call", "run") else None,
         "preempt": tape.pick([0.1, 0.4, 0.8], "preempt"),
-        "two_failures": tier == "thorough" and bool(tape.coin(0.3, "two")),
+        "two_failures": bool(tape.coin(0.5 if tier == "thorough" else 0.3, "two")),
+        "shared_exc": bool(tape.coin(0.3, "shared-exc")),
         "max_plans": 40 if tier == "quick" else 120,
     }
     return {"mode": "enumerate", "workload": w, "config": cfg}
@@ -142,7 +143,7 @@ def run_plan(w, cfg, faults, ref, tape, gens):
         sim = C.new_sim(tape, root, preempt=cfg["preempt"])
         fobjs = [Fault(f["fn"], f.get("args_obj"), f["exc"]) if f.get("args_obj") is not None
                  else Fault(f["fn"], None, f["exc"], nth=f.get("nth", 0)) for f in faults]
-        sim.faults = FaultPlan(fobjs)
+        sim.faults = FaultPlan(fobjs, shared_instances=bool(cfg.get("shared_exc")))
         folder = os.path.join(root, "run")
         err = None
         outcome = None
@@ -217,6 +218,14 @@ def run_plan(w, cfg, faults, ref, tape, gens):
                     if not any(_note_ok(err, c.fn, c.args) for c in cands):
                         V("attribution", "note-missing-or-incomplete",
                           {"notes": getattr(err, "__notes__", None), "failing_calls": [repr(c) for c in cands][:3]})
+                    elif cfg.get("shared_exc") and inproc:
+                        # one exception object raised by several failing invocations: every one of them that went
+                        # through pipefunc's error handler before the call returned must have left its note
+                        for c in cands:
+                            if not _note_ok(err, c.fn, c.args):
+                                V("attribution", "note-missing-for-a-failing-invocation",
+                                  {"notes": getattr(err, "__notes__", None), "missing_for": repr(c), "failing_calls": [repr(x) for x in cands][:4]})
+                                break
                     # 3. no later generation
                     first_fail = min(raised_calls, key=lambda c: c.end)
                     gmin = min(gens[c.fn] for c in raised_calls)
@@ -387,10 +396,10 @@ def run_case(case, exec_seed=None, exec_tape=None):
     if len(plans) > cfg["max_plans"]:
         plans = sel.shuffle(plans, "plan-sample")[: cfg["max_plans"]]
     if cfg.get("two_failures") and len(plans) >= 2:
-        for _ in range(min(10, len(plans))):
+        for _ in range(min(10 if cfg["max_plans"] > 40 else 4, len(plans))):
             a, b = sel.pick(plans, "a")[0], sel.pick(plans, "b")[0]
             if (a["fn"], a["ref_index"]) != (b["fn"], b["ref_index"]):
-                plans.append([a, dict(b, exc=sel.pick(EXC_KINDS, "exc"))])
+                plans.append([a, dict(b, exc=a["exc"] if sel.coin(0.6, "same-exc") else sel.pick(EXC_KINDS, "exc"))])
     probes = {}
     nontrivial = set()
     wd = C.digest_of([describe(w), cfg["exec"]])
